@@ -18,6 +18,7 @@ def _strip(src):
         line = re.sub(r'//.*$', '', line)
         out.append(line)
     s = '\n'.join(out)
+    s = s.replace('#[span(lo)]', '@SPANLO ').replace('#[span(hi)]', '@SPANHI ').replace('#[span]', '@SPAN ')
     # strip #[...] attributes (balanced)
     res = []
     i = 0
@@ -62,6 +63,7 @@ class Types:
     def __init__(self):
         self.structs = {}     # name -> [(field, type)]
         self.enums = {}       # name -> [(variant, [payload types] | {'names':[..],'types':[..]}, disc, docstr)]
+        self.span_fields = {} # struct -> {'span': field} | {'lo': field, 'hi': field}
 
     def load(self, paths):
         for f in paths:
@@ -92,9 +94,13 @@ class Types:
                         fs = []
                         for fld in _split_top(body):
                             fld = re.sub(r'@DOC\([^)]*\)', '', fld).strip()
+                            marks = re.findall(r'@SPAN(LO|HI)?\b', fld)
+                            fld = re.sub(r'@SPAN(LO|HI)?\b', '', fld).strip()
                             fm = re.match(r'(?:pub(?:\([a-z]+\))? )?(\w+)\s*:\s*(.*)$', fld, re.S)
                             if fm:
                                 fs.append((fm.group(1), ' '.join(fm.group(2).split())))
+                                for mk in marks:
+                                    self.span_fields.setdefault(name, {})[{'': 'span', 'LO': 'lo', 'HI': 'hi'}[mk]] = fm.group(1)
                         self.structs[name] = fs
                 else:
                     if name in self.enums:
